@@ -58,7 +58,7 @@ pub fn vocab() -> &'static Vocab {
 }
 
 fn load() -> Vocab {
-    let path = std::env::var("VERIF_CONFIG_JSON").unwrap_or_else(|_| "/repo/src/json/config.json".to_string());
+    let path = std::env::var("VERIF_CONFIG_JSON").unwrap_or_else(|_| format!("{}/src/json/config.json", crate::engine::repo_dir()));
     let text = std::fs::read_to_string(&path).unwrap_or_else(|e| {
         eprintln!("cannot read {}: {}", path, e);
         std::process::exit(3)
